@@ -81,6 +81,20 @@ impl Sh {
             }
         }
     }
+    /// like `build`, with caller-chosen symbol names
+    pub fn build_with(&self, ctx: &mut Context, namer: &dyn Fn(u8, Ty) -> String) -> ExprRef {
+        match self {
+            Sh::Sym(i, t) => match t {
+                Ty::BV(w) => ctx.bv_symbol(&namer(*i, *t), *w),
+                Ty::Arr(iw, dw) => ctx.array_symbol(&namer(*i, *t), *iw, *dw),
+            },
+            Sh::Lit(w, v) => lit(ctx, *w, v),
+            Sh::Op(op, p, k) => {
+                let a: Vec<ExprRef> = k.iter().map(|c| c.build_with(ctx, namer)).collect();
+                build_op(ctx, *op, *p, &a)
+            }
+        }
+    }
     pub fn symbols(&self, out: &mut Vec<(u8, Ty)>) {
         match self {
             Sh::Sym(i, t) => {
@@ -326,6 +340,10 @@ pub fn signatures(t: Ty, cw: u32, div: bool) -> Vec<Sig> {
                 }
                 add(Op::Implies, [0, 0], vec![Ty::BV(1), Ty::BV(1)]);
                 add(Op::ArrayEqual, [0, 0], vec![Ty::Arr(2, cw.min(8)), Ty::Arr(2, cw.min(8))]);
+                if cw == 1 {
+                    add(Op::ArrayEqual, [0, 0], vec![Ty::Arr(1, 1), Ty::Arr(1, 1)]);
+                    add(Op::ArrayEqual, [0, 0], vec![Ty::Arr(1, 2), Ty::Arr(1, 2)]);
+                }
             }
         }
         Ty::Arr(i, d) => {
@@ -413,6 +431,10 @@ pub fn depth1(sig: &Sig, mode: LeafMode) -> Vec<Sh> {
 /// Depth-2 shapes: root signature × one focus position holding a depth-1 shape (every operator
 /// that can produce that type, `Minimal` leaves), the other positions `Reduced` leaves.
 pub fn depth2(root: &Sig, cw: u32, div: bool) -> Vec<Sh> {
+    depth2_with(root, cw, div, LeafMode::Reduced)
+}
+
+pub fn depth2_with(root: &Sig, cw: u32, div: bool, other: LeafMode) -> Vec<Sh> {
     let mut out = vec![];
     for focus in 0..root.kids.len() {
         let mut inner: Vec<Sh> = vec![];
@@ -423,7 +445,7 @@ pub fn depth2(root: &Sig, cw: u32, div: bool) -> Vec<Sh> {
             .kids
             .iter()
             .enumerate()
-            .map(|(i, t)| if i == focus { inner.clone() } else { leaves(*t, LeafMode::Reduced) })
+            .map(|(i, t)| if i == focus { inner.clone() } else { leaves(*t, other) })
             .collect();
         for k in cartesian(&choices) {
             out.push(Sh::Op(root.op, root.params, k));
